@@ -39,12 +39,12 @@ RULE = ("configurations: keep {0,1,2,3} x cyclePeriod {P,3P,10P} x fileSize {0,2
         "normal end was reached with >=1 flush")
 META = {"engine": "F logging", "technique": "forked twin killed with os._exit(137) at enumerated crash points + retained-files model replayed from the child's report; strace for flush->fsync order",
         "level_text": "fault enumeration: every tick boundary (and in thorough every executed line of the rotation/flush code) of each sampled configuration is a crash point",
-        "level_note": "process death only (page cache survives); the killed process is a forked twin of the workload process, the files are copied right after its death; fsync is observed with strace, not tested by power loss; always-rule logs only"}
+        "level_note": "process death only (page cache survives); the killed process is a forked twin of the workload process, the files are copied right after its death; fsync is observed with strace, not tested by power loss; two always logs, a manual (never) log listed first and a once log listed last"}
 
 DT = 0.25
 PAD_A = 60
 PAD_B = 10
-LOGS = ("alw", "duo")
+LOGS = ("nev", "alw", "duo", "onc")      # logger order: a manual (never) log first, a once log last
 
 
 # ------------------------------------------------------------------ workload
@@ -104,13 +104,17 @@ def make_spec(conf, nticks, base_id, house="Hc", resume=False):
                     "flushPeriod": conf["flush"], "reuse": conf["reuse"]},
             "shares": [{"path": "r.a", "init": [["value", "init"]]},
                        {"path": "r.b", "init": [["u", "init"], ["v", -1]]}],
-            "logs": [{"name": "alw", "rule": "always", "loggees": [{"tag": "a", "share": "r.a", "fields": None}]},
-                     {"name": "duo", "rule": "always", "loggees": [{"tag": "b", "share": "r.b", "fields": None}]}],
+            "logs": [{"name": "nev", "rule": "never", "loggees": [{"tag": "a", "share": "r.a", "fields": None}]},
+                     {"name": "alw", "rule": "always", "loggees": [{"tag": "a", "share": "r.a", "fields": None}]},
+                     {"name": "duo", "rule": "always", "loggees": [{"tag": "b", "share": "r.b", "fields": None}]},
+                     {"name": "onc", "rule": "once", "loggees": [{"tag": "a", "share": "r.a", "fields": None}]}],
             "ticks": ticks}
     return spec, ids, rid
 
 
-HEADERS = {"alw": logx.expected_header("alw", "always", [("a", ["value"])]),
+HEADERS = {"nev": logx.expected_header("nev", "never", [("a", ["value"])]),
+           "onc": logx.expected_header("onc", "once", [("a", ["value"])]),
+           "alw": logx.expected_header("alw", "always", [("a", ["value"])]),
            "duo": logx.expected_header("duo", "always", [("b", ["u", "v"])])}
 
 
@@ -510,6 +514,55 @@ def judge_state(ctx, g, casekey, kill, report, root, resume, results, count):
         exact_oracle(ctx, name, disk2, models2[name], w2)
 
 
+def fsfault_case(ctx, conf, nticks, fault, workdir, tag):
+    """A rotate copy is deleted by an outside actor while the logger runs (so a rename in the middle of the rotation chain
+    fails): what that file held is gone, but every retained file must still start with the header and the files, read
+    oldest to newest, must still be in order with no record twice, and the newest record must be in the newest files."""
+    prefix = os.path.join(workdir, "p-%s" % tag)
+    os.makedirs(prefix)
+    spec, ids, _ = make_spec(conf, nticks, 0)
+    spec["ticks"][fault["tick"]]["pre"].insert(0, ["unlink", fault["log"], fault["copy"]])
+    res, why = logx.run_batch([{"tag": tag, "spec": spec, "prefix": prefix, "crashes": [], "ids": ids}], workdir, tag, timeout=200)
+    if res is None:
+        ctx.inconclusive_case("launcher %s failed: %s" % (tag, why))
+        return
+    rc, report = res.get(tag, (None, []))
+    casekey = {"conf": conf, "n": nticks, "fsfault": fault}
+
+    def wit(extra):
+        return dict({"config": conf, "ticks": nticks, "fault": fault,
+                     "report_tail": [" ".join(t) for t in report if t[0] not in ("L", "T")][-12:]}, **extra)
+    if rc != 0:
+        x = [t for t in report if t[0] == "X"]
+        if x:
+            info = json.loads(" ".join(x[0][1:]))
+            ctx.case(casekey, nontrivial=True)
+            ctx.fail("fsfault/exception/" + info["key"], "the logger raised after a rotate copy was deleted",
+                     wit({"traceback": info["tb"]}))
+        else:
+            ctx.inconclusive_case("workload process %s rc=%s" % (tag, rc))
+        return
+    happened = any(t[0] == "U" for t in report)
+    ctx.case(casekey, nontrivial=happened)
+    if not happened:
+        return
+    ctx.hit("fsfault_rotate_copy_deleted")
+    dirs = logx.find_logger_dirs(prefix, spec["house"], spec["logger"])
+    if not dirs:
+        ctx.inconclusive_case("no logger directory in %s" % tag)
+        return
+    for name in LOGS:
+        disk = read_disk(dirs[-1], name, conf["keep"])
+        w = lambda extra, name=name, disk=disk: wit(dict(extra, on_disk=describe(disk)))
+        generic_invariants(ctx, name, disk, dict(conf, size=0), lambda extra, w=w: w(extra))
+        written = [int(t[2]) for t in report if t[0] == "W" and t[1] == name]
+        if written and name in ("alw", "duo"):     # (an `always` log: its newest record is from the final logger run)
+            newest = [f for f in disk[:2] if f]
+            ctx.check(any(written[-1] in f["ids"] for f in newest), "fsfault/newest-record-not-in-newest-files",
+                      "after a rotate copy was deleted the newest record is not in the main file or the first copy",
+                      lambda: w({"log": name, "newest_record": written[-1]}))
+
+
 def run_group(ctx, g, workdir, count=True):
     res, why = logx.run_batch(g["jobs"], workdir, g["tag"], timeout=320)
     if res is None:
@@ -629,6 +682,9 @@ def worker(ctx, job):
                             "executed_lines_per_function": {fn: sum(1 for (f, r) in cnt if f == fn) for fn in logx.LINE_TARGETS}})
         elif job["mode"] == "strace":
             strace_scenario(ctx, conf, n, workdir, "c%dst" % ix)
+        elif job["mode"] == "fsfault":
+            for j, fault in enumerate(job["faults"]):
+                fsfault_case(ctx, conf, n, fault, workdir, "f%d-%d" % (ix, j))
     finally:
         shutil.rmtree(workdir, ignore_errors=True)
 
@@ -648,7 +704,15 @@ def run(ctx):
     for ci, conf in enumerate(confs):
         jobs.append({"mode": "ticks", "conf": conf, "n": n, "kills": list(range(1, n)), "sample": ci == 0,
                      "resume_ticks": ctx.pick([1, 2, 9], [1, 2, 3, 9, 17, 25, 33])})
+    # file-system faults: a rotate copy deleted mid-run (keep >= 2 so that the failing rename is inside the chain)
+    frng = ctx.subrng("c23-fsfault")
+    fconfs = [c for c in allc if c["keep"] >= 2 and c["cycle"] <= 3 * DT and not c["reuse"] and c["sched"] == "plain"]
+    for conf in frng.sample(fconfs, ctx.pick(6, 16)):
+        faults = [{"tick": frng.randint(6, n - 6), "log": frng.choice(["alw", "duo"]), "copy": frng.randint(1, conf["keep"] - 1)}
+                  for _ in range(ctx.pick(2, 6))]
+        jobs.append({"mode": "fsfault", "conf": conf, "n": n, "faults": faults})
     ctx.shard(jobs, timeout=ctx.pick(150, 340))
+    ctx.floor("fsfault_rotate_copy_deleted", ctx.pick(4, 30))
     ctx.extra["configurations"] = len(confs)
     ctx.extra["configuration_space"] = len(allc)
     ctx.extra["ticks_per_run"] = n
